@@ -209,9 +209,14 @@ Section StoreOps.
   Qed.
 End StoreOps.
 
-Lemma xstep_q c s o s' x l : xstep c s o = (s', x, l) -> goodl c (s_nx s) (s_nx s') (stored l).
+Lemma add_sort_stored t l : stored (map (add_sort t) l) = stored l.
+Proof. induction l as [|x r IH]; [reflexivity|]. cbn [map]. change (x :: r) with ([x] ++ r).
+  change (add_sort t x :: map (add_sort t) r) with ([add_sort t x] ++ map (add_sort t) r).
+  rewrite !stored_app, IH. f_equal. destruct x; reflexivity. Qed.
+
+Lemma xstep_q vr c s o s' x l : xstep vr c s o = (s', x, l) -> goodl c (s_nx s) (s_nx s') (stored l).
 Proof.
-  unfold xstep. destruct o as [o|names|].
+  unfold xstep. destruct o as [o|q sn|names|].
   - destruct o.
     + destruct (valid_put k v t); [|intro H; inversion H; subst; apply goodl_nil; lia].
       destruct (fs_put c 0 (s_main s) (s_nx s) (tkey k) (tval v) (map app_tag t)) as [[[m nx] y] l1] eqn:HP.
@@ -236,6 +241,9 @@ Proof.
       apply fs_batch_q in HP. intro H; inversion H; subst. assumption.
     + intro H; inversion H; subst. apply goodl_nil; lia.
     + intro H; inversion H; subst. apply goodl_nil; cbn; lia.
+  - destruct (is_nil q); [intro H; inversion H; subst; apply goodl_nil; lia|].
+    destruct (fs_query c 0 (s_main s) (s_nx s) (split_colon (expr_toks q) [])) as [[nx y] l1] eqn:HP. apply fs_query_q in HP as [H1 H2].
+    intro H; inversion H; subst. rewrite add_sort_stored, H2. apply goodl_nil. assumption.
   - destruct (existsb colon_name names); [intro H; inversion H; subst; apply goodl_nil; lia|].
     destruct (format c (s_nx s) None None
                 (map (fun n => (tname n, lit_empty)) names ++ (if f_det c then [] else [(lit_keytag, lit_empty)])))
@@ -253,17 +261,17 @@ Proof.
     destruct found as [|[fk [doc tg]] [|e2 r]]; intro H; inversion H; subst; cbn [s_nx]; rewrite HL; apply goodl_nil; assumption.
 Qed.
 
-Lemma xrun_q c : forall ops s s' outs, xrun c s ops = (s', outs) -> goodl c (s_nx s) (s_nx s') (stored (flat_map snd outs)).
+Lemma xrun_q v c : forall ops s s' outs, xrun v c s ops = (s', outs) -> goodl c (s_nx s) (s_nx s') (stored (flat_map snd outs)).
 Proof.
   induction ops as [|o r IH]; cbn; intros s s' outs H; [inversion H; subst; apply goodl_nil; lia|].
-  destruct (xstep c s o) as [[s1 x] l] eqn:HS. apply xstep_q in HS.
-  destruct (xrun c s1 r) as [s2 rest] eqn:HR. apply IH in HR.
+  destruct (xstep v c s o) as [[s1 x] l] eqn:HS. apply xstep_q in HS.
+  destruct (xrun v c s1 r) as [s2 rest] eqn:HR. apply IH in HR.
   inversion H; subst. cbn [flat_map snd]. rewrite stored_app. eapply goodl_app; eassumption.
 Qed.
 
-Lemma xlog_q c ops : exists hi, goodl c 0 hi (stored (xlog c ops)).
+Lemma xlog_q v c ops : exists hi, goodl c 0 hi (stored (xlog v c ops)).
 Proof.
-  unfold xlog. destruct (xrun c st0 ops) as [s outs] eqn:HR. apply xrun_q in HR. exists (s_nx s). exact HR.
+  unfold xlog. destruct (xrun v c st0 ops) as [s outs] eqn:HR. apply xrun_q in HR. exists (s_nx s). exact HR.
 Qed.
 
 (* --- consequences --- *)
